@@ -418,6 +418,22 @@ NAN_FUNCTIONS = {'minimum': np.nanmin,
                  'percentile': np.nanpercentile}
 
 
+def _as_double_for_statistic(statistic, data):
+    # Numpy carries out reductions in the precision of the data: sums, means
+    # and medians of half/single precision values are accumulated in
+    # half/single precision (and can overflow or lose the small values), and
+    # the interpolation for percentiles of integer values is done with
+    # integers of the same size, which can wrap around. We therefore make sure
+    # we work in double precision in these cases, so that the result does not
+    # depend on which of the code paths in compute_statistic is used.
+    if statistic in ('minimum', 'maximum'):
+        return data
+    if ((data.dtype.kind == 'f' and data.dtype.itemsize < 8) or
+            (data.dtype.kind in 'iu' and statistic == 'percentile')):
+        return data.astype(float)
+    return data
+
+
 def compute_statistic(statistic, data, mask=None, axis=None, finite=True,
                       positive=False, percentile=None):
     """
@@ -470,7 +486,7 @@ def compute_statistic(statistic, data, mask=None, axis=None, finite=True,
             keep &= mask
 
         if axis is None:
-            data = data[keep]
+            data = _as_double_for_statistic(statistic, data[keep])
         else:
             # We need to force a copy since we are editing the values and we
             # might as well convert to float just in case
@@ -482,6 +498,7 @@ def compute_statistic(statistic, data, mask=None, axis=None, finite=True,
     else:
 
         function = PLAIN_FUNCTIONS[statistic]
+        data = _as_double_for_statistic(statistic, data)
 
     if data.size == 0:
         return np.nan
